@@ -1,8 +1,8 @@
 (* C12/Property.v — property theorems only.  T is an ARBITRARY class table; trees and objects are
    unbounded.  The live tables enter through c12_live_table (re-checked on every run). *)
 From Coq Require Import String List Bool NArith.
-From Verif Require Import Base.Str Base.Xml Base.ClassTable C12.Model C12.Spec C12.Xsd C12.Proofs C12.Live.
-From VerifGen Require Import ClassTables C12Schema.
+From Verif Require Import Base.Str Base.Py Base.Py2 Base.Xml Base.ClassTable C12.Model C12.Spec C12.Xsd C12.Proofs C12.Live C12.Source2.
+From VerifGen Require Import ClassTables C12Schema C12Src2.
 Import ListNotations.
 
 (* serialise, read back with any XML reader, parse: the same instance - for every table, every
@@ -172,3 +172,109 @@ Print Assumptions c12_f3_v0_refuted.
 Theorem c12_refuted_cr : exists T o, wf_table T = true /\ canonical T o /\ harvest T (o_cls o) (ser T o) <> o.
 Proof. exact roundtrip_refuted_cr. Qed.
 Print Assumptions c12_refuted_cr.
+
+(* ---------------------------------------------------------------- tie to the source TEXT (translator v2)
+   gen/C12Src2.v is re-translated from saml2/__init__.py and saml2/saml.py on every run; C12/Source2.v proves each
+   definition equal to the model function it mirrors, for ALL inputs of the model's domain.  Names travel as Clark
+   strings; key_ok q = "the string written for q reads back as q" (every name an XML reader delivers; every name of
+   the live table: live_names_ok_true).  External calls are universally quantified functions. *)
+
+(* create_class_from_element_tree: the root tag check of parse_root / mparse *)
+Theorem c12_source2_create_class_from_element_tree :
+  forall (construct : pyval -> pyval) (harvest : pyval -> pyval -> pyval) ns tag crest g trest (ons otag : option string),
+    let ns' := match ons with Some n => n | None => ns end in
+    let tag' := match otag with Some t => t | None => tag end in
+    key_ok g = true -> key_ok (QN (Some ns') tag') = true ->
+    src2_create_class_from_element_tree construct harvest (enc_class ns tag crest) (enc_node g trest)
+                                        (enc_ostr ons) (enc_ostr otag)
+    = if qname_eqb g (QN (Some ns') tag')
+      then py_bind (construct (enc_class ns tag crest))
+                   (fun target => py_bind (harvest target (enc_node g trest)) (fun _ => target))
+      else PNone.
+Proof. exact src2_create_class_from_element_tree_is_model. Qed.
+Print Assumptions c12_source2_create_class_from_element_tree.
+
+(* ExtensionContainer._convert_element_attribute_to_member: place_attr for a name the class does not know *)
+Theorem c12_source2_ec_convert_attribute : forall cls xa rest q v,
+  keys_ok xa = true -> key_ok q = true ->
+  src2_ec_convert_attribute (enc_self cls xa rest) (PStr (clark q)) (PStr v)
+  = PList [PNone; enc_self cls (dset qname_eqb q v xa) rest].
+Proof. exact src2_ec_convert_attribute_is_model. Qed.
+Print Assumptions c12_source2_ec_convert_attribute.
+
+(* SamlBase._convert_element_attribute_to_member: place_attr (lookup by EXPANDED name, member stored, or delegation) *)
+Theorem c12_source2_convert_attribute :
+  forall (ec_convert : pyval -> pyval -> pyval -> pyval) ci,
+    names_ok_b ci = true -> members_plain_b ci = true ->
+    forall cls xa oa rest q v,
+    key_ok q = true -> NoDup (map fst oa) ->
+    (forall a, find_attr ci q = Some a -> In (at_member a) (map fst oa)) ->
+    src2_convert_attribute (enc_cattrs ci) ec_convert (enc_obj cls xa oa rest) (PStr (clark q)) (PStr v)
+    = match find_attr ci q with
+      | Some a => PList [PNone; enc_obj cls xa (set_member (at_member a) (Some v) oa) rest]
+      | None => py_bindh (fun n => PList [PExc n; enc_obj cls xa oa rest])
+                         (ec_convert (enc_obj cls xa oa rest) (PStr (clark q)) (PStr v))
+                         (fun _ => PList [PNone; enc_obj cls xa oa rest])
+      end.
+Proof. exact src2_convert_attribute_is_model. Qed.
+Print Assumptions c12_source2_convert_attribute.
+
+(* ... and its hypotheses on the class hold for every class of the regenerated live table *)
+Theorem c12_source2_convert_attribute_live : forall ec_convert c ci cls xa oa rest q v,
+  class_at live_table c = Some ci ->
+  key_ok q = true -> NoDup (map fst oa) ->
+  (forall a, find_attr ci q = Some a -> In (at_member a) (map fst oa)) ->
+  src2_convert_attribute (enc_cattrs ci) ec_convert (enc_obj cls xa oa rest) (PStr (clark q)) (PStr v)
+  = match find_attr ci q with
+    | Some a => PList [PNone; enc_obj cls xa (set_member (at_member a) (Some v) oa) rest]
+    | None => py_bindh (fun n => PList [PExc n; enc_obj cls xa oa rest])
+                       (ec_convert (enc_obj cls xa oa rest) (PStr (clark q)) (PStr v))
+                       (fun _ => PList [PNone; enc_obj cls xa oa rest])
+    end.
+Proof. exact src2_convert_attribute_live. Qed.
+Print Assumptions c12_source2_convert_attribute_live.
+
+(* AttributeValueBase.set_type: av_set_type *)
+Theorem c12_source2_set_type : forall cls xa rest typ,
+  keys_ok xa = true ->
+  src2_set_type (enc_self cls xa rest) (PStr typ) = PList [PNone; enc_self cls (av_set_type typ xa) rest].
+Proof. exact src2_set_type_is_model. Qed.
+Print Assumptions c12_source2_set_type.
+
+(* AttributeValueBase.get_type: the xsi:type extension attribute or "" (av_finish: get_type() or "string") *)
+Theorem c12_source2_get_type : forall cls xa rest,
+  keys_ok xa = true ->
+  src2_get_type (enc_self cls xa (("_extatt", PObj []) :: rest)) = PStr (get_type_m xa).
+Proof. exact src2_get_type_is_model. Qed.
+Print Assumptions c12_source2_get_type.
+
+(* ExtensionElement.transfer_to_element_tree: name, attributes and text of tree_of_ee *)
+Theorem c12_source2_transfer_to_element_tree :
+  forall (new_element : pyval -> pyval) (become_child : pyval -> pyval -> pyval),
+    new_element (PStr "") = enc_elem "" [] PNone ->
+    (forall c t, is_bad (become_child c t) = false) ->
+    forall ns tag att ks text,
+    keys_ok att = true ->
+    src2_transfer_to_element_tree new_element become_child (enc_ee_obj ns tag att ks text)
+    = enc_elem (clark (QN ns tag)) (adict att) (enc_ostr text).
+Proof. exact src2_transfer_to_element_tree_is_model. Qed.
+Print Assumptions c12_source2_transfer_to_element_tree.
+
+(* SamlBase._add_members_to_element_tree: to_tree's attribute part (known_attrs: every member that is not None, the
+   empty string included, in c_attributes order, by dict assignment) *)
+Theorem c12_source2_add_members :
+  forall (child_order : pyval -> pyval) (become_child ec_add : pyval -> pyval -> pyval) ci (self : pyval) (names : list string),
+    names_ok_b ci = true -> members_plain_b ci = true ->
+    child_order self = PList (map PStr names) ->
+    (forall c t, is_bad (become_child c t) = false) ->
+    (forall s t, is_bad (ec_add s t) = false) ->
+    (forall n, In n names -> member_val_ok (p2_getattr_dyn false self (PStr n)) = true) ->
+    forall cls xa oa rest,
+    self = enc_obj cls xa oa rest ->
+    (forall a, In a (c_attributes ci) -> In (at_member a) (map fst oa)) ->
+    forall tag acc text,
+    keys_ok acc = true ->
+    src2_add_members (enc_cattrs ci) child_order become_child ec_add self (enc_elem tag acc text)
+    = PList [PNone; enc_elem tag (dset_all qname_eqb acc (known_attrs ci oa)) text].
+Proof. exact src2_add_members_is_model. Qed.
+Print Assumptions c12_source2_add_members.
